@@ -337,7 +337,8 @@ CLIENT_MTUS = st.one_of(MTUS, MTUS, MTUS, st.sampled_from([0, 1, 22, 518, 1024, 
 UUID_PART = st.one_of(
     st.tuples(st.just('uuidof'), st.integers(0, 63)),
     st.tuples(st.just('uuidof'), st.integers(0, 63)),
-    st.sampled_from([('lit', u16(v)) for v in (0x2800, 0x2800, 0x2801, 0x2802, 0x2803, 0x2803, 0x2902, 0x2A00, 0x1234)]),
+    st.sampled_from([('lit', u16(v)) for v in (0x2800, 0x2800, 0x2801, 0x2802, 0x2803, 0x2803, 0x2902, 0x2A00, 0x1234,
+                                               0x1234, 0x1235, 0x1235, 0x2A19, 0x2901, 0x2904, 0x2900)]),
     st.sampled_from([('lit', U128_A), ('lit', U128_B), ('lit', U128_C)]),
     st.binary(min_size=16, max_size=16).map(lambda b: ('lit', b)),
     st.sampled_from([0, 1, 3, 4, 5, 15, 17, 32]).flatmap(lambda n: st.binary(min_size=n, max_size=n)).map(lambda b: ('lit', b)),
@@ -678,37 +679,10 @@ def materialize(op, L, limits):
     raise HarnessError(f'unknown operation {op!r}')
 
 
-def _fifo_tap(tap) -> None:
-    """Work-around for vlib.world.Tap: two packets that get the same delivery time are scheduled with two
-    call_at() handles of equal deadline, and asyncio's timer heap does not keep those in insertion order, so a
-    delayed tap can swap ACL fragments.  Here every callback delivers the OLDEST queued packet of its direction."""
-    import collections
-
-    queues = {world.H2C: collections.deque(), world.C2H: collections.deque()}
-
-    def forward(direction, packet):
-        now = tap.loop.time()
-        when = max(tap._last[direction], now + next(tap._delays[direction]) * tap.unit)
-        tap._last[direction] = when
-        queues[direction].append(packet)
-
-        def deliver():
-            tap._deliver(direction, queues[direction].popleft())
-
-        if when <= now:
-            tap.loop.call_soon(deliver)
-        else:
-            tap.loop.call_at(when, deliver)
-
-    tap._forward = forward
-
-
 async def _drive(loop, case, S):
     eatt = case['bearer'] == 'eatt'
     delays = list(case.get('delays') or []) or None
     w = world.World(2 if eatt else 1, delays=delays)
-    for node in w.nodes:
-        _fifo_tap(node.tap)
     dev = w[0].device
     info = build_db(dev, case['db'])
     dev.gatt_server.max_mtu = int(case['server_mtu'])
@@ -950,6 +924,8 @@ def analyse(ctx, case, S, loop) -> None:
     if any(len(a['type']) == 16 for a in L['attrs']):
         labels.add('db:uuid128')
 
+    dead = [False] * nb  # a count violation happened on this bearer: what follows there is not judged
+
     def fail(sig, what, upto):
         ctx.fail(sig, what, dict(concrete, kind='seq', ops=ops[: upto + 1]))
 
@@ -993,6 +969,9 @@ def analyse(ctx, case, S, loop) -> None:
                 pending_c[b] = None
         # ---- count clause
         for b in range(nb):
+            if dead[b]:
+                labels.add('not_judged:after_count_violation')
+                continue
             ntf = sum(1 for p in rxs[b] if p[0] == 0x1B)
             ind = sum(1 for p in rxs[b] if p[0] == 0x1D)
             if ntf > wnd['ntf'] or ind > wnd['ind']:
@@ -1009,6 +988,7 @@ def analyse(ctx, case, S, loop) -> None:
                     sig = 'no_response/malformed_request' if malformed(q) else f'no_response/{opname(q[0])}'
                     fail(sig, f'{opname(q[0])} {q[:12].hex()}{"..." if len(q) > 12 else ""} ({len(q)} bytes) got no response '
                               f'after quiescence{last_error(wnd)}', last_op)
+                    dead[b] = True
                 elif len(match) > 1:
                     fail(f'multiple_responses/{opname(q[0])}', f'{len(match)} responses to one {opname(q[0])}', last_op)
                 for p in match:
@@ -1041,6 +1021,7 @@ def analyse(ctx, case, S, loop) -> None:
                 fail(f'unexpected_pdu/{what}',
                      f'server sent {p[:8].hex()} ({len(p)} bytes) although the peer sent only {"+".join(kinds)} PDU(s) '
                      f'in this window{last_error(wnd)}', last_op)
+                dead[b] = True
     # ---- at most one indication awaiting confirmation, in the order the victim itself sent / was handed PDUs
     skip = 2 if eatt else 0  # enhanced bearer: K-frame = SDU length + PDU (every ATT PDU fits one frame)
     for t, d, cid, head in S['vlog']:
@@ -1091,9 +1072,9 @@ def run(ctx) -> None:
     ctx.extra['sum_opcodes_swept'] = covered
     ctx.extra['defined_classes'] = len(att.ATT_PDU.pdu_classes)
     # 2. generated databases and operation sequences, fixed bearer
-    ctx.hyp('fixed', lambda c: run_case(ctx, c), fixed_case(), max_examples=ctx.n(650, 150000))
+    ctx.hyp('fixed', lambda c: run_case(ctx, c), fixed_case(), max_examples=ctx.n(850, 150000))
     # 3. enhanced bearers
-    ctx.hyp('eatt', lambda c: run_case(ctx, c), eatt_case(), max_examples=ctx.n(250, 50000))
+    ctx.hyp('eatt', lambda c: run_case(ctx, c), eatt_case(), max_examples=ctx.n(320, 50000))
     for label, n in (
         ('tx:request', 100), ('tx:command', 10), ('tx:confirmation', 10), ('tx:wrong_way', 10), ('tx:undefined', 50),
         ('malformed_request', 20), ('handle:zero', 10), ('handle:past_end', 10), ('handle:ffff', 10),
